@@ -425,9 +425,11 @@ impl Oplog {
         let to_hash = &buffer[CRC_SIZE..LEADER_SIZE + len];
         let calculated_checksum = crc32fast::hash(to_hash);
         if calculated_checksum != stored_checksum {
-            return Err(HypercoreError::InvalidChecksum {
-                context: format!("Calculated signature [{calculated_checksum}] does not match oplog signature [{stored_checksum}]"),
-            });
+            // A write that was interrupted half way leaves a frame whose checksum does not
+            // match. Such a header slot or entry was never acknowledged: treat it like a
+            // missing one, so that open falls back to the other header slot, or stops
+            // reading entries here, instead of refusing to open the storage.
+            return Ok(None);
         };
         Ok(Some(ValidateLeaderOutcome {
             header_bit,
